@@ -7,7 +7,8 @@
 //!   spans are byte offsets of `ParsedContext::as_str()` within the text; the error fields are read from the
 //!   `Debug` rendering of `ParseError` (its fields are private).
 //! `hx c05 fmt` — case line: `<enc(text)>`; record: `ok <enc(formatted)>` | `err parse` | `err other` | `panic <enc(message)>`
-//!   (`okane::format::format`, i.e. `FormatOptions::new().recursive(false).format`, the function behind `okane format`).
+//!   (`okane::format::format`, i.e. `FormatOptions::new().recursive(false).format`, the function behind `okane format`, AND the
+//!   command itself, `cmd::FormatCmd::run` on a scratch file: `cmddiff <command record> | <library record>` when they differ).
 //! `hx c05 width` — case line: `<enc(text)>`; record: `<width_cjk> <width>` (unicode-width, as used by display.rs).
 use std::io::{BufRead, Write};
 
@@ -79,13 +80,45 @@ fn join(parts: Vec<String>, tail: &str) -> String {
     }
 }
 
-fn fmt_record(text: &str) -> String {
+fn fmt_library(text: &str) -> String {
     let mut out: Vec<u8> = Vec::new();
     let mut input = text.as_bytes();
     match okane::format::format(&mut input, &mut out) {
         Ok(()) => format!("ok {}", sx::enc_bytes(&out)),
         Err(okane_core::format::FormatError::Parse(_)) => "err parse".to_string(),
         Err(_) => "err other".to_string(),
+    }
+}
+
+/// the REAL command `okane format FILE` (`cmd::FormatCmd::run`: the glue of cli/src/cmd.rs that opens and reads the file) on a
+/// scratch file holding the text
+fn fmt_command(text: &str) -> String {
+    let dir = std::env::temp_dir().join(format!("okane-verif-fmtcmd-{}", std::process::id()));
+    if std::fs::create_dir_all(&dir).is_err() {
+        return "n/a".to_string();
+    }
+    let path = dir.join("main.ledger");
+    if std::fs::write(&path, text.as_bytes()).is_err() {
+        return "n/a".to_string();
+    }
+    let mut out: Vec<u8> = Vec::new();
+    let r = okane::cmd::FormatCmd { source: path }.run(&mut out);
+    let _ = std::fs::remove_dir_all(&dir);
+    match r {
+        Ok(()) => format!("ok {}", sx::enc_bytes(&out)),
+        Err(okane::cmd::Error::Format(okane_core::format::FormatError::Parse(_))) => "err parse".to_string(),
+        Err(_) => "err other".to_string(),
+    }
+}
+
+/// library path and command path; they must agree (`cmddiff <command record> | <library record>` otherwise)
+fn fmt_record(text: &str) -> String {
+    let lib = fmt_library(text);
+    let cmd = fmt_command(text);
+    if cmd == "n/a" || cmd == lib {
+        lib
+    } else {
+        format!("cmddiff {} | {}", cmd, lib)
     }
 }
 
